@@ -128,6 +128,11 @@ func spell(t *sim.Tape, target, refDir string, relativeOK bool) string {
 	}
 }
 
+// nameStringer is a template name that is not a string but knows how to print itself.
+type nameStringer struct{ s string }
+
+func (n nameStringer) String() string { return n.s }
+
 type c15 struct {
 	env      *sim.Env
 	t        *sim.Tape
@@ -264,7 +269,7 @@ func RunC15(env *sim.Env) {
 	}
 	c.set = jet.NewSet(setLoader, opts...)
 
-	kinds := []string{"GetTemplate", "Parse", "extends", "import", "include", "include-computed", "exec", "includeIfExists"}
+	kinds := []string{"GetTemplate", "Parse", "extends", "import", "include", "include-computed", "include-stringer", "exec", "includeIfExists"}
 	nOps := t.Range(3, 10)
 	var hist []string
 	nRef := 0
@@ -290,7 +295,7 @@ func RunC15(env *sim.Env) {
 		kind := kinds[t.Choose(len(kinds))]
 		target := c15Targets[t.Choose(len(c15Targets))]
 		refDir := c15RefDirs[t.Choose(len(c15RefDirs))]
-		relative := kind == "extends" || kind == "import" || kind == "include" || kind == "include-computed"
+		relative := kind == "extends" || kind == "import" || kind == "include" || kind == "include-computed" || kind == "include-stringer"
 		name := spell(t, target, refDir, relative)
 		if i < len(forced) {
 			kind, target, refDir, name, relative = forcedKind, forced[i].target, forced[i].refDir, forced[i].name, true
@@ -393,6 +398,9 @@ func RunC15(env *sim.Env) {
 			execute(fmt.Sprintf(`[{{include %q}}]`, name), nil)
 		case "include-computed":
 			execute(`[{{include dir + nm}}]`, jet.VarMap{}.Set("dir", "").Set("nm", name))
+		case "include-stringer":
+			// the name comes from data as a fmt.Stringer (a typed path, a URL-like value)
+			execute(`[{{include nm}}]`, jet.VarMap{}.Set("nm", nameStringer{name}))
 		case "exec":
 			execute(fmt.Sprintf(`[{{exec(%q)}}]`, name), nil)
 		case "includeIfExists":
